@@ -78,6 +78,11 @@ func Rng(stream ...int64) *rand.Rand {
 // (the adapter adds it when the server's own request timeout fired after at least 5 s).
 const WallClockMarker = "WALL-CLOCK-TIMEOUT"
 
+// StuckMarker tags the description of a request that was found structurally stuck (the adapter adds
+// it when a handler goroutine waits for a lock in two goroutine dumps). A violation carrying it ends
+// the monitor at once.
+const StuckMarker = "REQUEST-STUCK-ON-A-LOCK"
+
 func New(property string) *Rec {
 	return &Rec{Property: property, Tier: Tier(), Seed: Seed(), start: time.Now(),
 		distinct: map[string]int{}, viol: map[string]*Violation{}, extra: map[string]any{}, MinDistinct: 2}
@@ -146,6 +151,13 @@ func (r *Rec) Violate(sig, what string, replay any) {
 	}
 	r.viol[sig] = &Violation{Sig: sig, What: what, Count: 1, Replay: replay}
 	r.violOrder = append(r.violOrder, sig)
+	if strings.Contains(what, StuckMarker) {
+		// the server under test is deadlocked: nothing more can be learnt from this process, and
+		// shutting it down would wait for the stuck request for ever. Record and leave.
+		r.mu.Unlock()
+		r.Write()
+		os.Exit(0)
+	}
 }
 
 func (r *Rec) Violations() int { r.mu.Lock(); defer r.mu.Unlock(); return len(r.viol) }
